@@ -145,10 +145,6 @@ class _TypeQualifier(type):
 
     @_intrinsic
     def __getitem__(cls, Wrapped: type | tuple):
-        assert not hasattr(
-            cls, "_Wrapped"
-        ), f"{cls} is already specialized and cannot be specialized again"
-
         # direction only used for ports
 
         if isinstance(Wrapped, tuple):
@@ -163,6 +159,14 @@ class _TypeQualifier(type):
             WrappedType = Integer
 
         type_spec = (WrappedType, direction)
+
+        if hasattr(cls, "_Wrapped"):
+            # cls is already specialized, only its own parameters can be requested again
+            assert type_spec == (
+                cls._Wrapped,
+                getattr(cls, "_direction", None),
+            ), f"{cls} is already specialized and cannot be specialized again"
+            return cls
 
         if type_spec in cls._SubTypes:
             return cls._SubTypes[type_spec]
